@@ -236,6 +236,8 @@ class C04:
             'segment costs the curve actually has (cost == t on purpose), their nextafter neighbours, and a grid; oracle tables = the '
             'library\'s own distance / cost primitives on sub-arrays (complete for small n, else visited + touched keys); '
             'non-trivial = at least one split and at least one retained segment with interior points; '
+            'one case in eight additionally runs on a work buffer previously filled with another curve of the same shape and simplified '
+            '(same array object refilled in place; the second call is judged, tables from a separate copy); '
             'distinct by (points, distance, metric, threshold)')
     assumptions = ['threshold domain of the property: t > 0 (t <= 1 for R2), evaluated as curved(trivial cost) = false per case',
                    'shape of the distance primitive: len(distance_points(points[l:r], ..)) = r - l, evaluated per table entry',
@@ -261,6 +263,10 @@ class C04:
             for (d, m) in reps:
                 cases.append({'points': pts, 'family': fam, 'dist': d, 'cost': m,
                               't_mode': T_MODES[(k // len(CONFIGS)) % len(T_MODES)], 't_seed': rng.randrange(1 << 30)})
+            # same-object stream (hidden state keyed on object identity): one work buffer is filled with another curve of the
+            # same shape, simplified, refilled IN PLACE with this case's curve and simplified again; the second call is judged
+            if j % 8 == 5 and n >= 3:
+                cases[-1]['points_a'] = make_curve(rng, n)[1]
             k += 1
         return cases
 
@@ -324,12 +330,24 @@ class C04:
         import kneeliverse.metrics as metrics
         c, orc = self._prepare(c)
         pts = orc.points
+        reuse = c.get('points_a') is not None and len(c['points_a']) == orc.n
+        if reuse:
+            # every table entry that does not depend on the implementation's answer is evaluated NOW, on the oracle's own copy
+            # of the curve, before the work buffer exists; later entries (kept segments) also come from that separate copy
+            if orc.n <= self.nfull:
+                orc.complete()
+            orc.closure(c['t'])
+            pts = np.empty((orc.n, 2))
+            pts[:] = np.array(c['points_a'], dtype=float)
         # core arms a one-shot alarm; re-arm it as a repeating one so that a Timeout swallowed by some
         # `except Exception` inside the implementation cannot turn a cycling loop into a hung worker
         import signal
         signal.setitimer(signal.ITIMER_REAL, self.timeout, 0.25)
-        record_start(pts)
         try:
+            if reuse:
+                call(rdp.rdp, pts, c['t'], rdp.Distance[c['dist']], metrics.Metrics[c['cost']])   # the history
+                pts[:] = orc.points                                                                # refill the same object
+            record_start(pts)
             st, out = call(rdp.rdp, pts, c['t'], rdp.Distance[c['dist']], metrics.Metrics[c['cost']])
         finally:
             signal.setitimer(signal.ITIMER_REAL, 0)
@@ -372,7 +390,7 @@ class C04:
         return {'n': min(c.get('n', 0), 64) // 4 * 4, 'config': c['dist'] + '/' + c['cost'], 't_mode': c.get('t_mode'),
                 'impl': c.get('impl', '?').split(' ')[0], 'cost_equals_t': any(v == t for v in costs),
                 'nan_in_tables': nan, 'family': c.get('family'), 'oracle_mismatch': c.get('oracle_mismatch', 0) > 0,
-                'retained': min(len((c.get('out') or [[]])[0]), 16)}
+                'retained': min(len((c.get('out') or [[]])[0]), 16), 'same_object_refill': c.get('points_a') is not None}
 
     def shrink(self, c):
         out = []
@@ -382,15 +400,22 @@ class C04:
             if len(pts) > 2:
                 d = dict(base)
                 d['points'] = pts[:j] + pts[j + 1:]
+                if c.get('points_a') is not None:
+                    d['points_a'] = c['points_a'][:j] + c['points_a'][j + 1:]
                 out.append(d)
         return out
 
     def sample(self, c):
-        return {k: c[k] for k in ['points', 'dist', 'cost', 't', 't_mode', 'out', 'impl'] if k in c}
+        return {k: c[k] for k in ['points', 'points_a', 'dist', 'cost', 't', 't_mode', 'out', 'impl'] if k in c}
 
     def describe(self, c):
-        return ('kneeliverse.rdp.rdp(np.array(%s), %r, rdp.Distance.%s, metrics.Metrics.%s)  # t = float.fromhex(%r)'
-                % (c['points'], c.get('t'), c['dist'], c['cost'], float(c.get('t', 0.0)).hex()))
+        call = ('kneeliverse.rdp.rdp(%s, %r, rdp.Distance.%s, metrics.Metrics.%s)  # t = float.fromhex(%r)'
+                % ('buf' if c.get('points_a') is not None else 'np.array(%s)' % c['points'], c.get('t'), c['dist'], c['cost'],
+                   float(c.get('t', 0.0)).hex()))
+        if c.get('points_a') is not None:
+            return 'buf = np.array(%s); %s; buf[:] = np.array(%s)  # same object refilled in place; then judged: %s' % (
+                c['points_a'], call, c['points'], call)
+        return call
 
 
 def as_nat_list(a):
